@@ -797,6 +797,14 @@ impl ReCompiler {
             Ok(Operation::from(Nothing))
         } else if min == 1 && max == 1 {
             Ok(ret)
+        } else if ret.get_match_length() == Some(0) {
+            // a zero-length body (anchors, empty groups): iterating it changes
+            // nothing, so it is either required once or not at all
+            if min == 0 {
+                Ok(Operation::from(Nothing))
+            } else {
+                Ok(ret)
+            }
         } else if greedy {
             // actually do the quantifier now
             if let Some(match_length) = ret.get_match_length() {
